@@ -546,8 +546,35 @@ def make_schema_builder(params):
     return JSONSchemaBuilder(**kw)
 
 
+def prepare_schema_ctx(uni, op):
+    """build_json_schema(T, context=<one bare Context shared by the run>, **call)"""
+    from mashumaro.jsonschema import build_json_schema
+    from mashumaro.jsonschema.dialects import DRAFT_2020_12, OPEN_API_3_1
+    from mashumaro.jsonschema.models import Context, JSONSchema
+    key = f"ctx:{op['ctx']}"
+    ctx = uni.codecs.get(key)
+    if ctx is None:
+        ctx = Context()
+        uni.codecs[key] = ctx
+    call = dict(op["call"])
+    if "dialect" in call:
+        call["dialect"] = OPEN_API_3_1 if call["dialect"] == "openapi" else DRAFT_2020_12
+
+    def thunk():
+        T_ = uni.typ(op["type"])
+        try:
+            s = build_json_schema(T_, context=ctx, with_definitions=False, **call)
+        except NotImplementedError:
+            return {"error": "NotImplementedError"}
+        sd = s.to_dict()
+        return {"schema": sd, "roundtrip_equal": JSONSchema.from_dict(sd).to_dict() == sd}
+    return thunk, (lambda: True)
+
+
 def prepare_schema(uni, op):
     from mashumaro.jsonschema.models import JSONSchema
+    if op["what"] == "build_ctx":
+        return prepare_schema_ctx(uni, op)
     key = f"builder:{op['b']}"
 
     def snapshot(builder):
@@ -567,6 +594,7 @@ def prepare_schema(uni, op):
         if op["what"] == "defs":
             d = b.get_definitions().to_dict()
             state["after"] = snapshot(b)
+            state["defs_doc"] = d
             return {"definitions": sorted(d) if isinstance(d, dict) else d}
         T_ = uni.typ(op["type"])
         try:
